@@ -445,6 +445,16 @@ def request (s : Server) (m : Method) (p : Path) (ps : Params) : Resp × List Lo
     | none =>
       if ((s.table m.other).lookup p).isSome then (.notAllowed, []) else (.notFound, [])
 
+/-- what `_get` / `_post` hand to the handler: `dict(request.rel_url.query)` for a GET (a body is
+    not looked at), `dict(await request.post())` for a POST (the URL's query string is not looked at) -/
+def paramsFor : Method → Params → Params → Params
+  | .get, query, _ => query
+  | .post, _, form => form
+
+/-- a request as it travels: method, path, query string and form body -/
+def requestRaw (s : Server) (m : Method) (p : Path) (query form : Params) : Resp × List LogEntry :=
+  request s m p (paramsFor m query form)
+
 inductive Op
   | req (m : Method) (p : Path) (ps : Params)
   | define (n : Name) (v : EVal)           -- `n::…` evaluated between requests
@@ -815,7 +825,13 @@ def handle (st : State) (ws : List String) : State × String :=
       | "get" => some Method.get
       | "post" => some Method.post
       | _ => none
-    match st.web, m, (fs.lookup "path").bind hexToStr, (jsonField fs "params").bind paramsOfJson with
+    let ps := match (jsonField fs "params").bind paramsOfJson with
+      | some ps => some ps
+      | none =>
+        match m, (jsonField fs "query").bind paramsOfJson, (jsonField fs "form").bind paramsOfJson with
+        | some m, some q, some f => some (paramsFor m q f)
+        | _, _, _ => none
+    match st.web, m, (fs.lookup "path").bind hexToStr, ps with
     | some s, some m, some p, some ps =>
       let (r, es) := request s m p ps
       (st, s!"ok {showResp r} log={jsonHex (logToJson es)}")
